@@ -98,10 +98,13 @@ class TabularPowercurve(Powercurve):
                 np.interp(energy_kwh, self._charging_energy_kwh, self._charging_rate_kw)
             )  # kilowatt
             charge_power_kw = min(veh_kw_rate, power_kw)  # kilowatt
-            kwh = charge_power_kw * (self.step_size_seconds * SECONDS_TO_HOURS)  # kilowatt-hours
+            # the last slice is cut to the time that is left, so that a charge event never
+            # integrates more than duration_seconds
+            slice_seconds = min(self.step_size_seconds, duration_seconds - t)
+            kwh = charge_power_kw * (slice_seconds * SECONDS_TO_HOURS)  # kilowatt-hours
 
             energy_kwh += kwh
 
-            t += self.step_size_seconds
+            t += slice_seconds
 
         return energy_kwh, t
